@@ -299,7 +299,11 @@ pub(crate) fn run_scheduling_solver(
                             &w.resources,
                             sn_assignment.assigned_tasks.iter().map(|task_id| {
                                 let t = task_map.get_task(*task_id);
-                                (t.resource_rq_id, t.rv_id().unwrap())
+                                // A retracting task occupies the target worker of its redirect
+                                let rv_id = t.rv_id().unwrap_or_else(|| {
+                                    scheduler_cache.redirects.get(task_id).unwrap().1
+                                });
+                                (t.resource_rq_id, rv_id)
                             }),
                             request_map,
                         );
